@@ -20,7 +20,7 @@
   first; `headOnlyCredit` and `blockCredit` keep that behaviour for the regression examples.
 
   The note of a new commit holds exactly the lines the lookup credits (Model/Rewrite.lean `replayChain`).
-  Until 74aa63f9 a new commit for which that note came out empty was given the raw note of the source
+  Until 082b3ae9 a new commit for which that note came out empty was given the raw note of the source
   commit at the same position of the range instead, line numbers included (`positionalNoteCopy`, kept for
   the regression examples); the code now copies such a note only when it attests no line
   (rebase_authorship.rs:note_carried_over_without_lines), which at this level — a note is its line
